@@ -733,4 +733,214 @@ theorem cframe_setDeadline (st : State) (s : Nat) (d : Option Nat) :
   · exact h1.trans (cframe_armTimeout _ _)
   · exact h1
 
+/-! ### `enterScope` -/
+
+/-- the structural updates of `__enter__`, before `_timeout()` -/
+def enterCore (st : State) (t s : Nat) : State :=
+  let tk := st.tasks t
+  let st := st.setScope s (fun x => { x with host := some t, tasks := t :: x.tasks })
+  if !tk.hasState then
+    (st.setTask t (fun x => { x with hasState := true, scope := some s })).setScope s
+      (fun x => { x with chain := [s] })
+  else
+    let pchain : List Nat := match tk.scope with
+      | some p => (st.scopes p).chain
+      | none => []
+    let st := st.setScope s (fun x => { x with parent := tk.scope, chain := s :: pchain })
+    let st := st.setTask t (fun x => { x with scope := some s })
+    match tk.scope with
+    | some p =>
+      st.setScope p (fun x => { x with children := s :: x.children, tasks := x.tasks.erase t })
+    | none => st
+
+/-- all structural updates of `__enter__` -/
+def enterPre (st : State) (t s : Nat) : State :=
+  (enterCore st t s).setScope s (fun x => { x with active := true, entered := true })
+
+theorem enterScope_eq (st : State) (t s : Nat) :
+    enterScope st t s =
+      if (st.scopes s).active ∨ (st.scopes s).entered then none else
+      let st3 := (armTimeout (enterCore st t s) s).setScope s
+        (fun x => { x with active := true, entered := true })
+      some (if (st3.scopes s).cancelCalled then deliver st3 s else st3) := rfl
+
+/-- `__enter__` = the pure update `enterPre`, then cancellation machinery -/
+theorem enterScope_spec {st st' : State} {t s : Nat} (h : enterScope st t s = some st') :
+    (st.scopes s).active = false ∧ (st.scopes s).entered = false ∧
+      CFrame (enterPre st t s) st' := by
+  rw [enterScope_eq] at h
+  split at h
+  · contradiction
+  · rename_i hg
+    simp only [Option.some.injEq] at h
+    refine ⟨by simpa using fun h => hg (.inl h), by simpa using fun h => hg (.inr h), ?_⟩
+    subst h
+    have h1 : CFrame (enterPre st t s) ((armTimeout (enterCore st t s) s).setScope s
+        (fun x => { x with active := true, entered := true })) := by
+      apply CFrame.congr_setScope (cframe_armTimeout _ _)
+      · intro x y hxy; cases hxy; constructor <;> simp_all
+      · intro x; simp
+    split
+    · exact h1.trans (frame_deliver _ _).cframe
+    · exact h1
+
+/-! ### `exitScope` -/
+
+/-- the structural updates of `__exit__` before `_restart_cancellation_in_parent` -/
+def exitCore (st : State) (t s : Nat) : State :=
+  let sc := st.scopes s
+  let st := st.setScope s (fun x => { x with active := false })
+  let st :=
+    if sc.timer then (st.unschedule (.timeout s)).setScope s (fun x => { x with timer := false })
+    else st
+  let st := st.setScope s (fun x => { x with tasks := x.tasks.erase t })
+  let st :=
+    match sc.parent with
+    | some p =>
+      st.setScope p (fun x => { x with children := x.children.erase s, tasks := t :: x.tasks })
+    | none => st
+  st.setTask t (fun x => { x with scope := sc.parent })
+
+/-- all structural updates of `__exit__` -/
+def exitPre (st : State) (t s : Nat) : State :=
+  (exitCore st t s).setScope s (fun x => { x with host := none })
+
+/-- the part of `__exit__` after `_restart_cancellation_in_parent` -/
+def exitTail (st : State) (t s : Nat) (ev : ExcVal) : State × ExitResult :=
+  let sc := st.scopes s
+  let fin := fun (st : State) => st.setScope s (fun x => { x with host := none })
+  if sc.cancelCalled ∧ !parentVisible st s then
+    let st := taskUncancel st t sc.pending
+    let st := st.setScope s (fun x => { x with pending := 0 })
+    match ev with
+    | .group es =>
+      let cancels := es.filter (· = .cancelAnyio)
+      let rest := es.filter (· ≠ .cancelAnyio)
+      if cancels = [] then (fin st, .passed)
+      else
+        let st := st.setScope s (fun x => { x with caught := true })
+        if rest = [] then (fin st, .swallowed) else (fin st, .raised rest)
+    | .one .cancelAnyio =>
+      (fin (st.setScope s (fun x => { x with caught := true })), .swallowed)
+    | _ => (fin st, .passed)
+  else
+    let st :=
+      if sc.pending > 0 then
+        let st :=
+          match sc.parent with
+          | some p =>
+            if (st.scopes p).host = some t then
+              st.setScope p (fun x => { x with pending := x.pending + sc.pending })
+            else st
+          | none => st
+        st.setScope s (fun x => { x with pending := 0 })
+      else st
+    (fin st, .passed)
+
+/-- literal copy of the end of `exitScope` -/
+def exitTailO (st : State) (t s : Nat) (ev : ExcVal) : Option (State × ExitResult) :=
+  let sc := st.scopes s
+  let fin := fun (st : State) => st.setScope s (fun x => { x with host := none })
+  if sc.cancelCalled ∧ !parentVisible st s then
+    let st := taskUncancel st t sc.pending
+    let st := st.setScope s (fun x => { x with pending := 0 })
+    match ev with
+    | .group es =>
+      let cancels := es.filter (· = .cancelAnyio)
+      let rest := es.filter (· ≠ .cancelAnyio)
+      if cancels = [] then some (fin st, .passed)
+      else
+        let st := st.setScope s (fun x => { x with caught := true })
+        if rest = [] then some (fin st, .swallowed) else some (fin st, .raised rest)
+    | .one .cancelAnyio =>
+      some (fin (st.setScope s (fun x => { x with caught := true })), .swallowed)
+    | _ => some (fin st, .passed)
+  else
+    let st :=
+      if sc.pending > 0 then
+        let st :=
+          match sc.parent with
+          | some p =>
+            if (st.scopes p).host = some t then
+              st.setScope p (fun x => { x with pending := x.pending + sc.pending })
+            else st
+          | none => st
+        st.setScope s (fun x => { x with pending := 0 })
+      else st
+    some (fin st, .passed)
+
+theorem exitTailO_eq (st : State) (t s : Nat) (ev : ExcVal) :
+    exitTailO st t s ev = some (exitTail st t s ev) := by
+  unfold exitTailO exitTail
+  simp only []
+  split
+  · split
+    · split
+      · rfl
+      · split <;> rfl
+    · rfl
+    · rfl
+  · rfl
+
+theorem exitScope_eq (st : State) (t s : Nat) (ev : ExcVal) :
+    exitScope st t s ev =
+      if !(st.scopes s).active ∨ (st.scopes s).host ≠ some t ∨ !(st.tasks t).hasState ∨
+          (st.tasks t).scope ≠ some s then none
+      else some (exitTail (restartInParent (exitCore st t s) s) t s ev) := by
+  rw [← exitTailO_eq]; rfl
+
+theorem exitTail_cframe (st : State) (t s : Nat) (ev : ExcVal) :
+    ∃ x, (exitTail st t s ev).1 = x.setScope s (fun y => { y with host := none }) ∧
+      CFrame st x := by
+  have hu := (frame_taskUncancel st t (st.scopes s).pending).cframe
+  have hp : ∀ (a : State) (u : Nat) (f : Scope → Scope),
+      (∀ y, ScopeStructEq y (f y)) → CFrame a (a.setScope u f) :=
+    fun a u f hf => (Frame.of_setScope a u f (hf _)).cframe
+  have hc : ∀ (a : State), CFrame a (a.setScope s (fun y => { y with caught := true })) :=
+    fun a => CFrame.of_setScope _ _ _ (by constructor <;> simp)
+  have h0 : ∀ (a : State), CFrame a (a.setScope s (fun y => { y with pending := 0 })) :=
+    fun a => hp a s _ (fun y => by constructor <;> rfl)
+  unfold exitTail
+  simp only []
+  split
+  · split
+    · split
+      · exact ⟨_, rfl, hu.trans (h0 _)⟩
+      · split
+        · exact ⟨_, rfl, (hu.trans (h0 _)).trans (hc _)⟩
+        · exact ⟨_, rfl, (hu.trans (h0 _)).trans (hc _)⟩
+    · exact ⟨_, rfl, (hu.trans (h0 _)).trans (hc _)⟩
+    · exact ⟨_, rfl, hu.trans (h0 _)⟩
+  · refine ⟨_, rfl, ?_⟩
+    split
+    · refine CFrame.trans ?_ (h0 _)
+      split
+      · split
+        · exact hp _ _ _ (fun y => by constructor <;> rfl)
+        · exact CFrame.refl _
+      · exact CFrame.refl _
+    · exact CFrame.refl _
+
+/-- `__exit__` = its guard, the pure update `exitPre`, then cancellation machinery -/
+theorem exitScope_spec {st st' : State} {t s : Nat} {ev : ExcVal} {r : ExitResult}
+    (h : exitScope st t s ev = some (st', r)) :
+    (st.scopes s).active = true ∧ (st.scopes s).host = some t ∧ (st.tasks t).hasState = true ∧
+      (st.tasks t).scope = some s ∧ CFrame (exitPre st t s) st' := by
+  rw [exitScope_eq] at h
+  split at h
+  · contradiction
+  · rename_i hg
+    simp only [Option.some.injEq] at h
+    have hg' : (st.scopes s).active = true ∧ (st.scopes s).host = some t ∧
+        (st.tasks t).hasState = true ∧ (st.tasks t).scope = some s := by
+      simpa using hg
+    refine ⟨hg'.1, hg'.2.1, hg'.2.2.1, hg'.2.2.2, ?_⟩
+    obtain ⟨x, hx, hcf⟩ := exitTail_cframe (restartInParent (exitCore st t s) s) t s ev
+    have : st' = x.setScope s (fun y => { y with host := none }) := by
+      rw [← hx, h]
+    rw [this]
+    apply CFrame.congr_setScope ((frame_restartInParent _ _).cframe.trans hcf)
+    · intro x y hxy; cases hxy; constructor <;> simp_all
+    · intro x; simp
+
 end AnyioModel.Kernel
